@@ -166,6 +166,13 @@ def rule_converters(ctx, res):
             detail = 'no-filter={} iterates-param={} elt-is-TABLE[b].p8string={}'.format(
                 one, it_ok, elt_ok)
     if ok:
+        rb = [x for x in walk_own(f.node) if isinstance(x, ast.Name) and
+              x.id == param and isinstance(x.ctx, ast.Store)]
+        if rb:
+            ok = False
+            detail = 'parameter {} is re-bound before the conversion'.format(
+                param)
+    if ok:
         res.holds('R-C15-converters', q, 'in-order concatenation',
                   "''.join(P8SCII_CHARSET[b].p8string for b in bs): every "
                   'byte, in order, no filter, no other table', f.loc)
@@ -282,15 +289,52 @@ def rule_converters(ctx, res):
               'the looked-up slice is not s[idx:idx+width] of the reverse '
               'map (or happens after the advance)',
               f.module.loc(appends[0]) if appends else f.loc)
+    # the text parsed is the argument as given: no re-binding of it
+    rebinds = [st for st in walk_own(f.node)
+               if isinstance(st, (ast.Assign, ast.AugAssign, ast.AnnAssign,
+                                  ast.For, ast.NamedExpr, ast.With))
+               and any(isinstance(x, ast.Name) and x.id == s and
+                       isinstance(x.ctx, ast.Store) for x in walk_own(st)
+                       if x is not st)]
+    res.check(not rebinds, 'R-C15-converters', q,
+              'the text parsed is the argument as given',
+              'parameter {} is never re-bound'.format(s),
+              'the text is altered before it is parsed ({}): some text no '
+              'longer converts back to the bytes it came from'.format(
+                  unparse(rebinds[0], 60) if rebinds else ''),
+              f.module.loc(rebinds[0]) if rebinds else f.loc)
+    # the collected list starts empty and only the loop appends to it
+    acc = None
+    if appends and isinstance(appends[0].func.value, ast.Name):
+        acc = appends[0].func.value.id
+    acc_ok = False
+    if acc:
+        binds = assignments_to(f.node, acc)
+        acc_ok = (len(binds) == 1 and isinstance(binds[0][1], ast.List) and
+                  not binds[0][1].elts and binds[0][0] in f.node.body and
+                  f.node.body.index(binds[0][0]) < f.node.body.index(lp))
+        muts = [c for c in walk_own(f.node) if isinstance(c, ast.Call) and
+                isinstance(c.func, ast.Attribute) and
+                isinstance(c.func.value, ast.Name) and c.func.value.id == acc
+                and c is not appends[0]]
+        acc_ok = acc_ok and not muts
+    res.check(acc_ok, 'R-C15-converters', q,
+              'collected bytes start empty, one append site',
+              'result = [] before the loop; no other mutation',
+              'the collected byte list is not initialised empty or is '
+              'changed outside the one append', f.loc)
     rets = [n for n in walk_own(f.node) if isinstance(n, ast.Return)]
     ret_ok = len(rets) == 1 and isinstance(rets[0].value, ast.Call) and \
         isinstance(rets[0].value.func, ast.Name) and \
         rets[0].value.func.id == 'bytes' and \
+        len(rets[0].value.args) == 1 and \
+        isinstance(rets[0].value.args[0], ast.Name) and \
+        rets[0].value.args[0].id == acc and \
         rets[0] in f.node.body and f.node.body.index(rets[0]) > \
         f.node.body.index(lp)
     res.check(ret_ok, 'R-C15-converters', q, 'returns all collected bytes',
               'bytes(result) after the loop', 'return changed', f.loc)
-    res.require_min('R-C15-converters', 5)
+    res.require_min('R-C15-converters', 7)
 
 
 def rule_use(ctx, res):
